@@ -4,8 +4,9 @@ import MuscleModel.Conc.ProofsPoolSpec
 /-!
 # The joint invariant of the reference-count / pool machine and its "local update" rule (lemmas for C10)
 
-`refs c o` counts the references to `o`: `Ref` slots of every thread, global slots, and pending decrements (a pending
-`Act.dec o` is a reference the C++ code still holds).  `Inv` is the invariant all C10 theorems are read off from;
+`refs c o` counts the references to `o`: reference-counting `Ref` slots of every thread, global slots, pending
+decrements (a pending `Act.dec o` / `Act.decNoDel o` is a reference the C++ code still holds) and the `next` members of
+other objects (`Cfg.links`).  `Inv` is the invariant all C10 theorems are read off from;
 `inv_update` reduces its preservation by a step of thread `t` to conditions on thread `t`'s own record and the objects
 the step touched.
 -/
@@ -18,15 +19,16 @@ def b2n (b : Bool) : Nat := if b then 1 else 0
 @[simp] theorem b2n_true : b2n true = 1 := rfl
 @[simp] theorem b2n_false : b2n false = 0 := rfl
 
-/-- number of slots of `l` that reference `o` -/
-def cntS : List (Option Oid) → Oid → Nat
+/-- number of reference-counting slots of `l` that reference `o` -/
+def cntS : List Slot → Oid → Nat
   | [], _ => 0
-  | x :: r, o => (if x = some o then 1 else 0) + cntS r o
+  | x :: r, o => (if x = some (o, true) then 1 else 0) + cntS r o
 
 /-- number of pending decrements of `o` -/
 def cntDec : List Act → Oid → Nat
   | [], _ => 0
   | .dec x :: r, o => (if x = o then 1 else 0) + cntDec r o
+  | .decNoDel x :: r, o => (if x = o then 1 else 0) + cntDec r o
   | _ :: r, o => cntDec r o
 
 /-- number of pending `ReleaseObject(o)` critical sections -/
@@ -41,8 +43,13 @@ def sumT (f : Th → Nat) : List Th → Nat
   | [] => 0
   | x :: r => f x + sumT f r
 
+/-- number of objects whose `next` member references `o` -/
+def cntL : List (Oid × Oid) → Oid → Nat
+  | [], _ => 0
+  | p :: r, o => (if p.2 = o then 1 else 0) + cntL r o
+
 /-- all references to `o` -/
-def refs (c : Cfg) (o : Oid) : Nat := sumT (fun th => th.refs o) c.ths + cntS c.glob o
+def refs (c : Cfg) (o : Oid) : Nat := sumT (fun th => th.refs o) c.ths + cntS c.glob o + cntL c.links o
 
 def pendRel (c : Cfg) (o : Oid) : Nat := sumT (fun th => cntRel th.todo o) c.ths
 
@@ -55,8 +62,8 @@ def aliveN (f : Oid → Obj) : Oid → Nat
   | .heap _ => 0
   | .node s i => b2n (f (.node s i)).alive
 
-theorem cntS_set {l : List (Option Oid)} {a : Nat} {x y : Option Oid} {o : Oid} (h : l[a]? = some x) :
-    cntS (l.set a y) o + (if x = some o then 1 else 0) = cntS l o + (if y = some o then 1 else 0) := by
+theorem cntS_set {l : List Slot} {a : Nat} {x y : Slot} {o : Oid} (h : l[a]? = some x) :
+    cntS (l.set a y) o + (if x = some (o, true) then 1 else 0) = cntS l o + (if y = some (o, true) then 1 else 0) := by
   induction l generalizing a with
   | nil => simp at h
   | cons z r ih =>
@@ -64,7 +71,7 @@ theorem cntS_set {l : List (Option Oid)} {a : Nat} {x y : Option Oid} {o : Oid} 
     | zero => simp at h; subst h; simp [cntS]; omega
     | succ a => simp at h; have := ih h; simp [cntS]; omega
 
-theorem cntS_set_oob {l : List (Option Oid)} {a : Nat} {y : Option Oid} (h : l[a]? = none) : l.set a y = l := by
+theorem cntS_set_oob {l : List Slot} {a : Nat} {y : Slot} (h : l[a]? = none) : l.set a y = l := by
   induction l generalizing a with
   | nil => rfl
   | cons z r ih => cases a with
@@ -133,14 +140,17 @@ structure Inv (c : Cfg) : Prop where
   nodeMgr : ∀ s i, (c.obj (.node s i)).alive = true → (c.obj (.node s i)).mgr = true
   fresh : ∀ s i, (c.obj (.node s i)).alive = false → (c.obj (.node s i)).val = 0 ∧ (c.obj (.node s i)).mgr = false
   del : ∀ (t : Nat) (th : Th) (s : Slab), c.ths[t]? = some th → Act.delSlab s ∈ th.todo → s.inUse = 0 ∧ Unlisted c.pool s.id
+  linksND : (c.links.map (·.1)).Nodup
+  linkAlive : ∀ x n, (x, n) ∈ c.links → (c.obj x).alive = true
+  noOld : ∀ (t : Nat) (th : Th) (a : Nat) (n : Oid), c.ths[t]? = some th → Act.incOld a n ∉ th.todo
 
 /-- **Local update rule.**  A step of thread `t` (old record `th`, new record `th'`, everything else of the new
 configuration in `c1`) preserves `Inv` if the listed conditions on `th`, `th'` and the touched objects hold. -/
 theorem inv_update {c c1 : Cfg} {t : Nat} {th th' : Th} (h : Inv c) (ht : c.ths[t]? = some th) (hths : c1.ths = c.ths)
     (hpool : PoolInv c1.pool)
-    (hcnt : ∀ o, (c1.obj o).count + th.refs o + cntS c.glob o = (c.obj o).count + th'.refs o + cntS c1.glob o)
+    (hcnt : ∀ o, (c1.obj o).count + th.refs o + cntS c.glob o + cntL c.links o = (c.obj o).count + th'.refs o + cntS c1.glob o + cntL c1.links o)
     (hkeep : ∀ o, (c.obj o).alive = true → (c1.obj o).alive = true ∨ (c1.obj o).count = 0)
-    (hnew : ∀ o, th.refs o + cntS c.glob o < th'.refs o + cntS c1.glob o → (c1.obj o).alive = true)
+    (hnew : ∀ o, th.refs o + cntS c.glob o + cntL c.links o < th'.refs o + cntS c1.glob o + cntL c1.links o → (c1.obj o).alive = true)
     (hraw : ∀ o, th'.raw = some o → (c1.obj o).alive = true ∧ (c1.obj o).count = 0)
     (hrawO : ∀ o, (c.obj o).alive = true → (c.obj o).count = 0 → ((c1.obj o).alive = true ∧ (c1.obj o).count = 0) ∨ th.raw = some o)
     (hrawN : ∀ o, th'.raw = some o → th.raw = some o ∨ (c.obj o).alive = false)
@@ -153,9 +163,12 @@ theorem inv_update {c c1 : Cfg} {t : Nat} {th th' : Th} (h : Inv c) (ht : c.ths[
     (hnm : ∀ s i, (c1.obj (.node s i)).alive = true → (c1.obj (.node s i)).mgr = true)
     (hfr : ∀ s i, (c1.obj (.node s i)).alive = false → (c1.obj (.node s i)).val = 0 ∧ (c1.obj (.node s i)).mgr = false)
     (hdel : ∀ s, Act.delSlab s ∈ th'.todo → s.inUse = 0 ∧ Unlisted c1.pool s.id)
-    (hmono : ∀ sid, Unlisted c.pool sid → Unlisted c1.pool sid) :
+    (hmono : ∀ sid, Unlisted c.pool sid → Unlisted c1.pool sid)
+    (hlnd : (c1.links.map (·.1)).Nodup)
+    (hla : ∀ x n, (x, n) ∈ c1.links → (c1.obj x).alive = true)
+    (hno : ∀ a n, Act.incOld a n ∉ th'.todo) :
     Inv { c1 with ths := c1.ths.set t th' } := by
-  have hrefs : ∀ o, refs { c1 with ths := c1.ths.set t th' } o + th.refs o + cntS c.glob o = refs c o + th'.refs o + cntS c1.glob o := by
+  have hrefs : ∀ o, refs { c1 with ths := c1.ths.set t th' } o + th.refs o + cntS c.glob o + cntL c.links o = refs c o + th'.refs o + cntS c1.glob o + cntL c1.links o := by
     intro o
     have := sumT_set (f := fun th => th.refs o) (th' := th') ht
     simp only [refs, hths]; omega
@@ -173,7 +186,7 @@ theorem inv_update {c c1 : Cfg} {t : Nat} {th th' : Th} (h : Inv c) (ht : c.ths[
     by_cases htu : t = u
     · subst htu; simp [htlt] at hu; exact Or.inl ⟨rfl, hu.symm⟩
     · simp [htu] at hu; exact Or.inr ⟨fun e => htu e.symm, hu⟩
-  refine ⟨hpool, hcnt', ?_, ?_, ?_, hacq, ?_, hfresh, hmgr, hacq1, hnm, hfr, ?_⟩
+  refine ⟨hpool, hcnt', ?_, ?_, ?_, hacq, ?_, hfresh, hmgr, hacq1, hnm, hfr, ?_, hlnd, hla, ?_⟩
   · -- alive
     intro o hpos
     have hc := hcnt' o
@@ -219,9 +232,14 @@ theorem inv_update {c c1 : Cfg} {t : Nat} {th th' : Th} (h : Inv c) (ht : c.ths[
     · exact hdel s hs
     · have ⟨h1, h2⟩ := h.del u tu s hu' hs
       exact ⟨h1, hmono _ h2⟩
+  · -- noOld
+    intro u tu a n hu
+    rcases hlook u tu hu with ⟨_, rfl⟩ | ⟨hne, hu'⟩
+    · exact hno a n
+    · exact h.noOld u tu a n hu'
 
 
-theorem cntS_pos {l : List (Option Oid)} {a : Nat} {o : Oid} (h : l[a]? = some (some o)) : 0 < cntS l o := by
+theorem cntS_pos {l : List Slot} {a : Nat} {o : Oid} (h : l[a]? = some (some (o, true))) : 0 < cntS l o := by
   induction l generalizing a with
   | nil => simp at h
   | cons z r ih =>
@@ -236,6 +254,54 @@ theorem mem_of_getElem? {l : List Th} {t : Nat} {th : Th} (h : l[t]? = some th) 
 theorem th_refs_le {c : Cfg} {t : Nat} {th : Th} (ht : c.ths[t]? = some th) (o : Oid) : th.refs o ≤ refs c o := by
   have := sumT_ge_mem (f := fun th => th.refs o) (mem_of_getElem? ht)
   simp only [refs]; omega
+
+theorem cntL_le_refs (c : Cfg) (o : Oid) : cntL c.links o ≤ refs c o := by simp only [refs]; omega
+
+/-! ## the `next` members -/
+
+theorem mem_dropKey {l : List (Oid × Oid)} {x : Oid} {p : Oid × Oid} : p ∈ dropKey l x ↔ p ∈ l ∧ p.1 ≠ x := by
+  simp [dropKey, List.mem_filter]
+
+theorem nodup_dropKey {l : List (Oid × Oid)} (h : (l.map (·.1)).Nodup) (x : Oid) : ((dropKey l x).map (·.1)).Nodup :=
+  List.Nodup.sublist (List.Sublist.map _ List.filter_sublist) h
+
+theorem nodup_cons_dropKey {l : List (Oid × Oid)} (h : (l.map (·.1)).Nodup) (x n : Oid) : (((x, n) :: dropKey l x).map (·.1)).Nodup := by
+  simp only [List.map_cons, List.nodup_cons]
+  refine ⟨?_, nodup_dropKey h x⟩
+  intro hm; obtain ⟨p, hp, he⟩ := List.mem_map.mp hm
+  exact (mem_dropKey.mp hp).2 he
+
+theorem nextOf_mem {l : List (Oid × Oid)} {x n : Oid} (h : nextOf l x = some n) : (x, n) ∈ l := by
+  simp only [nextOf] at h
+  cases hf : l.find? (fun p => p.1 = x) with
+  | none => rw [hf] at h; cases h
+  | some p =>
+    rw [hf] at h; simp at h
+    have h1 := List.mem_of_find?_eq_some hf
+    have h2 : p.1 = x := by simpa using List.find?_some hf
+    have : p = (x, n) := by cases p; simp at h2 h; rw [h2, h]
+    rw [← this]; exact h1
+
+theorem cntL_dropKey {l : List (Oid × Oid)} (hnd : (l.map (·.1)).Nodup) (x o : Oid) :
+    cntL (dropKey l x) o + (if nextOf l x = some o then 1 else 0) = cntL l o := by
+  induction l with
+  | nil => simp [dropKey, nextOf, cntL]
+  | cons p r ih =>
+    simp only [List.map_cons, List.nodup_cons] at hnd
+    by_cases hp : p.1 = x
+    · have hr : dropKey r x = r := by
+        simp only [dropKey]; rw [List.filter_eq_self]
+        intro q hq; simp only [decide_eq_true_eq]
+        intro he; exact hnd.1 (by rw [hp, ← he]; exact List.mem_map_of_mem hq)
+      have h1 : dropKey (p :: r) x = r := by
+        have : dropKey (p :: r) x = dropKey r x := by simp [dropKey, hp]
+        rw [this, hr]
+      have h2 : nextOf (p :: r) x = some p.2 := by simp [nextOf, hp]
+      rw [h1, h2]; simp only [cntL, Option.some.injEq]; omega
+    · have h1 : dropKey (p :: r) x = p :: dropKey r x := by simp [dropKey, hp]
+      have h2 : nextOf (p :: r) x = nextOf r x := by simp [nextOf, hp]
+      have := ih hnd.2
+      rw [h1, h2]; simp only [cntL]; omega
 
 theorem count_zero_of_dead {c : Cfg} (h : Inv c) {o : Oid} (hd : (c.obj o).alive = false) : (c.obj o).count = 0 := by
   rw [h.cnt o]
